@@ -116,19 +116,18 @@ theorem else_pass_unreachable (E : Nat → Rat → Rat) (cfg : Cfg) (xr : Nat) (
   pre_inr_bracket h
 
 /-- Exception types.  On non-degenerate input (no evaluated excess is exactly zero) with a
-    non-empty candidate list of which at least one is below the cap, `Bisection1D.search` ends with
-    a selection or with `ValueError`; no other exception type escapes. -/
+    non-empty candidate list, `Bisection1D.search` ends with a selection or with `ValueError`; no
+    other exception type escapes.  (Since the F17 repair this includes a cap at or below the
+    smallest candidate.) -/
 theorem only_value_error (counts : List Nat) (E : Nat → Rat → Rat) (cfg : Cfg)
-    (hnz : ∀ i h, E i h ≠ 0) (hne : counts ≠ [])
-    (hcap : ∀ c, cfg.cap = some c → ∃ i, i < counts.length ∧ counts.getD i 0 < c) :
+    (hnz : ∀ i h, E i h ≠ 0) (hne : counts ≠ []) :
     ∀ e, (bisect1D counts E cfg).1 ≠ .pyError e := by
   intro e
-  rcases bisect1D_spec counts E cfg with ⟨e', he, _⟩ | ⟨xr, hu, ⟨o, hp, hb⟩ | ⟨ls, hp, ⟨i, s, e', hl, hb⟩ | ⟨i, s, hl, hb⟩⟩⟩
-  · exfalso
-    rcases (upperIndex_error he).2 with h | ⟨c, hc, hall⟩
-    · exact hne h
-    · obtain ⟨i, hi, hlt⟩ := hcap c hc
-      exact hall i hi hlt
+  rcases bisect1D_spec counts E cfg with ⟨e', he, hb⟩ | ⟨xr, hu, ⟨o, hp, hb⟩ | ⟨ls, hp, ⟨i, s, e', hl, hb⟩ | ⟨i, s, hl, hb⟩⟩⟩
+  · rw [hb]
+    rcases upperIndex_error he with ⟨_, h, _⟩ | ⟨h, _⟩
+    · exact absurd h hne
+    · simp [h]
   · rw [hb]
     rcases pre_inl_cases hp with ⟨_, hz⟩ | ⟨ho, _⟩ | ⟨ho, _⟩ | ⟨ho, _⟩
     · rcases hz with hz | hz | hz <;> exact absurd hz (hnz _ _)
@@ -147,12 +146,29 @@ theorem only_value_error (counts : List Nat) (E : Nat → Rat → Rat) (cfg : Cf
     obtain ⟨k, _, hf, _⟩ := finish_selects (counts := counts) hinv (upperIndex_ok hu).1 hneg'
     rw [hb, hf]; simp
 
-/-- Whatever happens, the only exception types the search can raise are `ValueError`,
-    `ZeroDivisionError` (an excess of exactly zero) and `IndexError` (nothing below the cap). -/
+/-- A cap that no candidate satisfies ends the search with `ValueError` (F17 repair), never with
+    an IndexError. -/
+theorem cap_too_small_value_error (counts : List Nat) (E : Nat → Rat → Rat) (cfg : Cfg) (c : Nat)
+    (hcap : cfg.cap = some c) (hall : ∀ i < counts.length, ¬ counts.getD i 0 < c) :
+    bisect1D counts E cfg = (.valueError, []) := by
+  rcases bisect1D_spec counts E cfg with ⟨e', he, hb⟩ | ⟨xr, hu, _⟩
+  · rw [hb]
+    rcases upperIndex_error he with ⟨_, _, h⟩ | ⟨h, _⟩
+    · rw [hcap] at h; cases h
+    · simp [h]
+  · exfalso
+    obtain ⟨h1, h2⟩ := upperIndex_ok hu
+    exact hall xr h1 (h2 c hcap)
+
+/-- Whatever happens, the only other exception types the search can raise are `ZeroDivisionError`
+    (an excess of exactly zero) and `IndexError` (an empty candidate list). -/
 theorem exception_kinds (counts : List Nat) (E : Nat → Rat → Rat) (cfg : Cfg) (e : PyErr)
     (h : (bisect1D counts E cfg).1 = .pyError e) : e = .zeroDiv ∨ e = .indexError := by
   rcases bisect1D_spec counts E cfg with ⟨e', he, hb⟩ | ⟨xr, hu, ⟨o, hp, hb⟩ | ⟨ls, hp, ⟨i, s, e', hl, hb⟩ | ⟨i, s, hl, hb⟩⟩⟩
-  · rw [hb] at h; injection h with h; subst h; exact Or.inr (upperIndex_error he).1
+  · rw [hb] at h
+    rcases upperIndex_error he with ⟨h', _, _⟩ | ⟨h', _⟩
+    · subst h'; simp at h; exact Or.inr h.symm
+    · subst h'; simp at h
   · rw [hb] at h; simp only at h; subst h
     rcases pre_inl_cases hp with ⟨ho, _⟩ | ⟨ho, _⟩ | ⟨ho, _⟩ | ⟨ho, _⟩
     · injection ho with ho; exact Or.inl ho
